@@ -23,7 +23,15 @@ import (
 	"time"
 )
 
-const RepoDir = "/repo"
+// RepoDir is the tree under verification. VERIF_REPO overrides it for
+// development experiments on scratch worktrees only; registered checks run
+// without it and therefore against /repo.
+var RepoDir = func() string {
+	if d := os.Getenv("VERIF_REPO"); d != "" {
+		return d
+	}
+	return "/repo"
+}()
 
 // ---------------------------------------------------------------- PRNG
 
